@@ -221,7 +221,7 @@ def run(tier, seed, replay=None):
             what['failures'] = found
             res.violation('enum', what, 'C04: proof/tie broken and failing input found: %s' % found[0]['what'])
         else:
-            res.violation('proof', what, 'C04: %s no longer checks' % (fails[0][2] if fails else (tie_msg or 'proof audit')), no_input=True)
+            res.violation('proof', what, 'C04: %s no longer checks' % ((fails[0][2] if fails[0][2] != '?' else '%s (%s)' % (fails[0][0], str(fails[0][3])[:120].replace(chr(10), ' '))) if fails else (tie_msg or 'proof audit')), no_input=True)
     res.coverage.update({
         'obligations': stats.get('obligations', 0), 'discharged': stats.get('discharged', 0) if proofs_ok else min(stats.get('discharged', 0), max(stats.get('obligations', 1) - 1, 0)),
         'checker_cmd': 'cd coq && make Properties_C04.vo && coqc -Q . Ygm Properties_C04.v   (Print Assumptions under every theorem)',
